@@ -26,12 +26,14 @@ def bounds(tier):
                 "big": "values {0, 1, 2**24+1, 2**31+1, 2**32+3, 2**40+5}, 1..4 items, 1..4 bins, all partitioners and all cg configurations",
                 "spread-heur": "greedy/roundrobin/multifit/kk on all multisets of 7 items over (1,2,3,4,6,9,11,16,20,25), k=2..4, non-sorted presentation",
                 "spread-heur": "greedy/roundrobin/multifit/kk on all multisets of 7 items over 1..25, k=2..4, non-sorted presentation",
-            "wide-search": "snp/rnp/ckk/cg on all multisets of 7 items over 1..6 (k=3..5), every 6th chunk of the 8-item multisets over 0..10 (k=4), and 9..10 items over 1..3 given as a dict (k=4..5)",
+                "wide-rnp5": "rnp with 5 bins (its nested odd/even levels) on every second chunk of the multisets of 8 items over 1..7",
+                "wide-search": "snp/rnp/ckk/cg on all multisets of 7 items over 1..6 (k=3..5), every 6th chunk of the 8-item multisets over 0..10 (k=4), and 9..10 items over 1..3 given as a dict (k=4..5)",
                 "count-sweep": "every numbins k in 1..24 with k-1, k, k+1, 2k+1 items over {1,2,3}: greedy/roundrobin/multifit/kk/cg x 3 objectives (+cbldm k=2, snp where items <= k+1 and k <= 6)",
                 "long-thin": "9..15 items over {1,2}, 9..12 over {1,2,3}, 9..11 over {0,1,5} and {2,3,7}, bins {2,3,4,5,7,n,n+1}, non-sorted presentation: greedy/roundrobin/multifit/kk/cg(default switches, 3 objectives)/cbldm"}
     return {"dense": "values 0..7, 1..7 items, 1..8 bins", "ilp": "values 0..5, 1..6 items, 1..4 bins",
             "named formats": "dict(str names), dict(int names), names+valueof (unique names; one name per distinct value, repeated; numpy array of ids) on 1..5 items",
             "big": "values {0, 1, 2**24+1, 2**31+1, 2**32+3, 2**40+5}, 1..5 items, 1..4 bins, all partitioners and all cg configurations",
+            "wide-rnp5": "rnp with 5 bins on all multisets of 8..9 items over 1..7",
             "wide-search": "snp/rnp/ckk/cg on all multisets of 7 items over 1..10 (k=3..5), of 8 items over 0..10 (k=4), and 9..10 items over 1..4 given as a dict (k=4..5)",
             "count-sweep": "every numbins k in 1..70 with k-1, k, k+1, 2k+1 items over {1,2,3}: greedy/roundrobin/multifit/kk/cg x 3 objectives (+cbldm k=2, snp where items <= k+1 and k <= 6)",
             "long-thin": "9..24 items over {1,2}, 9..16 over {1,2,3}, 9..13 over {0,1,5} and {2,3,7}, bins {2,3,4,5,7,n,n+1}, non-sorted presentation: greedy/roundrobin/multifit/kk/cg(default switches, 3 objectives)/cbldm"}
@@ -67,6 +69,8 @@ def tasks(tier):
         ts.append(("wide-search", ch, (3, 4, 5), "list"))
     for ch in scopes.chunk_multisets(range(0, 11), 8, 8, 40)[:: (6 if q else 1)]:
         ts.append(("wide-search", ch, (4,), "list"))
+    for ch in scopes.chunk_multisets(range(1, 8), 8, 8 if q else 9, 40)[:: (2 if q else 1)]:
+        ts.append(("wide-rnp5", ch, (5,), "list"))
     # the cheap heuristics on seven and eight items with values spread over a 1:25 range (multifit's bin count depends on
     # first-fit succeeding at the capacity its search ends with)
     SPREAD = (1, 2, 3, 4, 6, 9, 11, 16, 20, 25)
@@ -105,11 +109,11 @@ def run_task(task):
                     _one(acc, {"algo": algo, "items": list(scopes.scramble(ms)), "k": k, "fmt": fmt, "out": "PartitionAndSumsTuple", "kw": {}})
         acc.sample({"scope": scope, "items": list(chunk[0]), "numbins": list(K)})
         return acc
-    if scope == "wide-search":
+    if scope in ("wide-search", "wide-rnp5"):
         for ms in chunk:
             for k in K:
                 acc.point(nontrivial=True)
-                for algo in ("snp", "rnp", "ckk", "cg"):
+                for algo in (("snp", "rnp", "ckk", "cg") if scope == "wide-search" else ("rnp",)):
                     if algo == "ckk" and len(ms) > 8:
                         continue
                     kw = {"objective": "MinimizeDifference"} if algo == "cg" else {}
